@@ -138,6 +138,17 @@ def documents(tier, layer):
                 out.append(('parent-p/' + iname, (('e', 'p', (), kids),), False))
                 if layer != 'plain':
                     out.append(('parent-q/' + iname, (('e', 'q', (), kids),), False))
+            if iname == 'none' and 2 <= len(row) <= 4 and sum(1 for n_ in row if n_[1] == 'a') >= 2:
+                # HTML tree edited through the API: every second <a> is stored as <A>; for HTML documents it is the same element type
+                seen_a = [0]
+
+                def up(n_):
+                    if n_[1] == 'a':
+                        seen_a[0] += 1
+                        if seen_a[0] % 2 == 0:
+                            return (n_[0], 'A') + tuple(n_[2:])
+                    return n_
+                out.append(('parent-p/stored-case', (('e', 'p', (), tuple(up(n_) for n_ in row)),), False))
             if iname == 'none' and 2 <= len(row) <= 4:
                 # children of an <iframe> (html.parser keeps them as elements): positions among them are ordinary positions
                 out.append(('parent-iframe/none', (('e', 'div', (), (('e', 'iframe', (), kids), ('e', 'b', (), ()))),), False))
